@@ -228,6 +228,9 @@ pub struct Opts {
     /// add filler headers after the ordinary ones until the header block is about this many bytes, and carry
     /// it in one HEADERS frame plus as many maximal CONTINUATION frames as it takes (0 = no filler)
     pub huge_block: usize,
+    /// after the first message, open this many further streams with minimal HEADERS frames (a busy multiplexed
+    /// connection: a browser loading a page opens dozens to hundreds)
+    pub extra_streams: usize,
 }
 
 /// Encode the start of an HTTP/2 connection direction. Returns bytes + what was encoded.
@@ -485,6 +488,12 @@ pub fn connection_start(r: &mut Rng, o: &Opts) -> (Vec<u8>, Structure) {
     if flags & F_END_STREAM == 0 && r.chance(1, 2) {
         let n = r.urange(1, 200);
         out.extend_from_slice(&frame(0, F_END_STREAM, sid, &r.bytes(n)));
+    }
+    // further streams: one indexed header field each (0x82 = :method GET, 0x88 = :status 200)
+    let mut next_sid = sid + 2;
+    for _ in 0..o.extra_streams {
+        out.extend_from_slice(&frame(1, F_END_HEADERS | F_END_STREAM, next_sid, &[if o.request { 0x82 } else { 0x88 }]));
+        next_sid += 2;
     }
     (out, st)
 }
